@@ -414,7 +414,8 @@ class Folder:
                     out += self._str(v)
             return out
         if isinstance(e, ast.Lambda):
-            return unk("lambda")
+            lq = getattr(self.p, "lambda_quals", {}).get(id(e))
+            return FuncRef(lq) if lq else unk("lambda")
         if isinstance(e, ast.Starred):
             return unk("starred")
         return unk(type(e).__name__)
